@@ -18,6 +18,8 @@ RULE = ("program p = i // 16 (4-12 executed events, float/int/Duration clocks); 
         "the handler's action list varies (before / between / after its scheduling actions); strategy in {log, warn, "
         "pause} (set plain or with an explicit log level, switched by handlers, incl. refused switches to non-existent strategies) x driver in {start, bounded, step, mixed} x {fresh simulator, initialised once before, initialised and cleaned up before}; non-trivial = at least one injected fault was reached and "
         "events were still pending when it fired; distinct = canonical (program, fault set, strategy, driver) hash")
+RULE += '; 15% of the cases give every event a keyword argument whose repr()/str() raise; a fifth set the strategy through an IntEnum mirror of the constants'
+RULE += '; 3 (thorough 12) cases run 2400-4000 events of which every second fails, in one uninterrupted run under a continue strategy'
 ASSUMPTIONS = ["WARN_AND_END / WARN_AND_EXIT are outside the statement",
                "a failing handler raises RuntimeError, KeyError, a BaseException subclass that is not an Exception, or SystemExit",
                "a failing step may return normally or raise a DSOLError that reports the failure; any other escaping exception type is a violation",
@@ -39,6 +41,13 @@ def gen_case(rng, tier, i):
     from vlib.refdevs import Ref, WARMUP
     nstop = 4 if tier == "quick" else 12
     nrec = 9 if tier == "quick" else 45
+    nmany = 3 if tier == "quick" else 12
+    if i < nmany:
+        # very many failing handlers in ONE uninterrupted run under a continue strategy (every second of 3000 events fails):
+        # the thousandth failure is contained like the first
+        clock = ["float", "int", "duration"][i % 3]
+        return {"fam": "many", "clock": clock, "strategy": ["log", "warn", "log"][i % 3], "n": [3000, 2400, 4000][(i // 3) % 3],
+                "driver": ["start", "run_up_to_including"][(i // 3) % 2]}
     if plan(tier)["cases"] - nstop - nrec <= i < plan(tier)["cases"] - nstop:
         # a recurring, argument-less handler (a 'tick' that re-schedules itself) failing more than once: every failure is
         # a failure of its own, however alike the reports look
@@ -86,7 +95,7 @@ def gen_case(rng, tier, i):
             switches.append([t, rng.choice(["log", "warn", "pause", "bad:zero", "bad:name", "bad:none", "bad:big", "bad:neg"])])
     cuts = sorted(rng.sample(range(0, 60), 3))
     return {"prog": prog, "faults": fl, "strategy": strategy, "driver": driver, "cuts": cuts, "nsteps": rng.randint(1, 6),
-            "switches": switches, "strategy_call": rng.choice(["plain", "plain", "level_kw", "level_pos", "intenum"])}
+            "switches": switches, "unprintable": rng.random() < 0.15, "strategy_call": rng.choice(["plain", "plain", "level_kw", "level_pos", "intenum"])}
 
 
 def shard_setup(tier, ctx):
@@ -196,16 +205,72 @@ def _recurring(case, ctx):
         h.cleanup()
 
 
+def _many(case, ctx):
+    from vlib.simharness import Harness
+    clock, n = case["clock"], case["n"]
+    lit = (lambda v: [float(v), "s"]) if clock == "duration" else (lambda v: int(v) if clock == "int" else float(v))
+    prog = {"clock": clock, "rep": {"start": lit(0), "warmup": lit(0), "length": lit(n + 10)}, "strategy": case["strategy"],
+            "init": [["abs", lit(t), 5, f"m{t}"] for t in range(1, n + 1)], "handlers": {f"m{t}": [["raise", "exc"]] for t in range(1, n + 1, 2)}}
+    h = Harness(prog)
+    h.max_exec = 10 * n
+    where = {"clock": clock, "strategy": case["strategy"], "events": n, "failing": (n + 1) // 2, "driver": case["driver"]}
+    try:
+        if h.cmd("initialize") != "ok":
+            ctx.viol("initialize-raises", where)
+            return
+        out = h.cmd("start") if case["driver"] == "start" else h.cmd("run_up_to_including", lit(n + 10))
+        if out != "ok" or not h.wait_quiescent(120):
+            ctx.viol("hang:many-faults", {**where, "outcome": out, "snapshot": h.snapshot()})
+            return
+        ctx.count("runs_with_more_than_a_thousand_failing_handlers")
+        times = [c for _, c in h.trace()]
+        snap = h.snapshot()
+        if times != [float(t) for t in range(1, n + 1)]:
+            first_bad = next((k for k, (a, b) in enumerate(zip(times, range(1, n + 1))) if a != b), min(len(times), n))
+            ctx.viol(f"segment-{case['strategy']}:event-lost", {**where, "executed": len(times), "first_difference_at_event": first_bad, "snapshot": snap})
+            return
+        if snap["run_state"] != "ENDED" or snap["clock"] != n + 10:
+            ctx.viol("not-ended-at-the-end", {**where, "snapshot": snap})
+            return
+        ctx.nontrivial = True
+    finally:
+        h.cleanup()
+
+
 def run_case(case, ctx):
+    if case.get("fam") == "many":
+        return _many(case, ctx)
     if case.get("fam") == "stop_then_fail":
         return _stop_then_fail(case, ctx)
     if case.get("fam") == "recurring":
         return _recurring(case, ctx)
+    if sum(case["cuts"]) % 5 == 1:
+        # the process treats warnings as errors (python -W error / PYTHONWARNINGS=error, as test and CI runs often do): how a
+        # failure is reported must not depend on it
+        import warnings
+        ctx.count("cases_run_with_warnings_as_errors")
+        with warnings.catch_warnings():
+            warnings.simplefilter("error")
+            return _run_main(case, ctx)
+    if sum(case["cuts"]) % 5 == 2:
+        # the user has switched the library's loggers to DEBUG (handlers silenced here): containment does not depend on the log level
+        import logging
+        from vlib.base import library_loggers_at
+        ctx.count("cases_with_the_library_loggers_at_DEBUG")
+        with library_loggers_at(logging.DEBUG):
+            return _run_main(case, ctx)
+    return _run_main(case, ctx)
+
+
+def _run_main(case, ctx):
     from vlib.simharness import Harness, compare_traces, check_clock_monotone
     from vlib.refdevs import Ref, WARMUP
     prog = _with_faults(case["prog"], case["faults"], case.get("switches", ()))
     prog["strategy"] = case["strategy"]
     prog["strategy_call"] = case.get("strategy_call", "plain")
+    if case.get("unprintable"):
+        prog["payload"] = "unprintable"       # the failing (and every other) event carries an object whose repr()/str() raise
+        ctx.count("cases_whose_events_carry_an_unprintable_object")
     where = {"clock": prog["clock"], "strategy": case["strategy"], "driver": case["driver"], "faults": case["faults"]}
     ref = Ref(prog)
     ref.initialize()
